@@ -34,6 +34,7 @@ import (
 	"github.com/bartossh/Computantis/src/spice"
 	"github.com/bartossh/Computantis/src/transaction"
 	"github.com/bartossh/Computantis/src/transformers"
+	"github.com/bartossh/Computantis/src/wallet"
 	"google.golang.org/grpc"
 	"google.golang.org/protobuf/proto"
 	"google.golang.org/protobuf/types/known/emptypb"
@@ -1493,6 +1494,54 @@ func init() {
 				c.Count("fetch-burst.not-reached")
 			}
 			v.close()
+		}
+		// ---- a copy that is refused for a reason that passes (the node is still syncing) must not shadow the copy
+		// that arrives by another path once the reason is gone
+		{
+			w := NewWorld(c)
+			w.quiet = true
+			a := w.NewNode()
+			d := w.NewNode() // not loaded yet
+			rich := w.NewWallet()
+			other := w.NewWallet()
+			w.Genesis(a, rich.Address(), spice.Melange{Currency: 1000})
+			var before []*accountant.Vertex
+			for v := range a.ab.StreamDAG(context.Background()) {
+				cp := *v
+				before = append(before, &cp)
+			}
+			t, _ := transaction.New("pay", spice.Melange{Currency: 5}, nil, other.Address(), recSigner{rich})
+			vx, err := a.ab.CreateLeaf(context.Background(), &t)
+			if err == nil {
+				hc, _ := cache.New(100, 16)
+				fl, _ := cache.NewFlash()
+				g := gossip.VerifNewGossiper(nopLog{}, time.Second, recSigner{d.w}, w.ver, d.ab, hc, fl, pipe.New(10, 10), "d")
+				entry := func(wl *wallet.Wallet) *pb.Gossiper {
+					dg, sg := recSigner{wl}.Sign(gossip.VerifGossiperMessage(wl.Address(), vx.Hash))
+					return &pb.Gossiper{Address: wl.Address(), Digest: dg[:], Signature: sg}
+				}
+				relay := w.NewWallet()
+				_, e1 := g.Server().GossipVrx(context.Background(), &pb.VrxMsgGossip{Vertex: gossip.VerifMapVertexToProto(&vx), Gossipers: []*pb.Gossiper{entry(a.w)}})
+				// the node finishes syncing (from a peer that did not have the vertex yet)
+				ch := make(chan *accountant.Vertex, len(before)+1)
+				for _, bv := range before {
+					ch <- bv
+				}
+				close(ch)
+				_, cancel := context.WithCancelCause(context.Background())
+				d.ab.LoadDag(cancel, ch)
+				cancel(nil)
+				_, e2 := g.Server().GossipVrx(context.Background(), &pb.VrxMsgGossip{Vertex: gossip.VerifMapVertexToProto(&vx), Gossipers: []*pb.Gossiper{entry(a.w), entry(relay)}})
+				_, rerr := d.ab.ReadVertex(context.Background(), vx.Hash)
+				c.Rep.Evals++
+				c.Count("refused-then-second-copy")
+				c.Distinct("refused-then-second-copy")
+				if e1 != nil && d.ab.DagLoaded() && rerr != nil {
+					c.Violate("C11", "refused-copy-shadows-later-copy", fmt.Sprintf("a vertex reached a node that was still syncing (refused: %v); after the sync a second copy arrived by another path (answer: %v) and the node still does not hold the vertex", e1, e2),
+						map[string]interface{}{"section": "gossip", "scenario": "refused-then-second-copy"})
+				}
+			}
+			w.Close()
 		}
 		// ---- bait: the adversary (1) knows an item before the victim (2) does, sends the victim a vertex that
 		// names the item as its parent, watches the victim ask its peers for that parent, and then relays the
